@@ -5,7 +5,7 @@ from . import common
 SPEC_THEOREM = 'Props/C12: contains_t reflexive, transitive, scalar containment = compare equality'
 TRUSTED = ['Coq 8.16.1 kernel', 'translator', 'extraction + OCaml driver', 'Rust harness', 'model Contain.v (mirror of contains_value; contains_jsonb tied by correspondence)']
 ASSUMPTIONS = ['inputs are canonical encodings of well-formed values']
-RULE = 'pairs where b is derived from a (drop members/elements, reorder, duplicate, nest deeper/shallower, re-type numbers 1 / 1.0 / signed / unsigned) plus unrelated pairs; chains a>=b>=c for transitivity; non-trivial = contains is true for a != b'
+RULE = 'pairs where b is derived from a (drop members/elements, reorder, duplicate, nest deeper/shallower, re-type numbers 1 / 1.0 / signed / unsigned) plus unrelated pairs; each in all four text/binary argument forms for finite documents; chains a>=b>=c for transitivity; non-trivial = contains is true for a != b'
 
 
 def retype(ctx, v):
@@ -43,13 +43,30 @@ def derive(ctx, a):
     return a
 
 
+def unwrap(ctx, a, top=True):
+    """a with some array below the top level replaced by one of its scalar elements (the bare-scalar rule is for the
+    top level only, so the result is NOT contained unless it is by other means)"""
+    r = ctx.rng
+    k = a[0]
+    if k == 'a':
+        if not top and a[1] and r.random() < 0.6:
+            sc = [x for x in a[1] if x[0] not in 'ao']
+            if sc:
+                return r.choice(sc)
+        return ('a', [unwrap(ctx, x, False) for x in a[1]])
+    if k == 'o':
+        return ('o', [(kk, unwrap(ctx, x, False)) for kk, x in a[1]])
+    return a
+
+
 def generate(ctx):
     r = ctx.rng
     ds = common.docs(ctx, ctx.scale(700, 30000), finite=False)
     ctx.pairs = []
     ctx.chains = []
+    ctx.forms = []
     for a in ds:
-        cands = [a, derive(ctx, a), retype(ctx, derive(ctx, a)), retype(ctx, a), r.choice(ds)]
+        cands = [a, derive(ctx, a), retype(ctx, derive(ctx, a)), retype(ctx, a), r.choice(ds), unwrap(ctx, a), derive(ctx, unwrap(ctx, a))]
         if a[0] == 'a' and a[1]:
             cands.append(r.choice(a[1]))           # bare scalar / element of a top-level array
             cands.append(('a', [a]))               # one level deeper
@@ -58,6 +75,15 @@ def generate(ctx):
         for b in cands:
             c1 = ctx.add('contains %s %s' % (gen.hexarg(gen.enc(a)), gen.hexarg(gen.enc(b))), meta=('c', a, b))
             ctx.pairs.append((a, b, c1.id))
+            # the same question with one or both documents given as JSON text (the tree implementation and the
+            # dispatch between the two): all four argument forms must agree
+            if r.random() < 0.35 and gen.is_finite(a) and gen.is_finite(b):
+                fa, fb = gen.text_form(a), gen.text_form(b)
+                ta, tb = gen.json_text(fa, r), gen.json_text(fb, r)
+                if ta[:1] != b' ' and tb[:1] != b' ':
+                    ea, eb = gen.hexarg(gen.enc(fa)), gen.hexarg(gen.enc(fb))
+                    ids = [ctx.add('contains %s %s' % (x, y)).id for x, y in ((ea, eb), (gen.hexarg(ta), eb), (ea, gen.hexarg(tb)), (gen.hexarg(ta), gen.hexarg(tb)))]
+                    ctx.forms.append((fa, fb, ids))
         b = derive(ctx, a)
         c = derive(ctx, b)
         ids = [ctx.add('contains %s %s' % (gen.hexarg(gen.enc(x)), gen.hexarg(gen.enc(y)))).id for x, y in ((a, b), (b, c), (a, c))]
@@ -83,6 +109,11 @@ def judge(ctx):
             ctx.violate('contains panics', case=[gen.vtext(a), gen.vtext(b)], observed=o)
         if a is b and o != 'ok =true':
             ctx.violate('containment is not reflexive', case=gen.vtext(a), observed=o)
+    for a, b, ids in ctx.forms:
+        outs = [impl.get(i) for i in ids]
+        if any(o != outs[0] for o in outs):
+            ctx.violate('contains gives different answers for the binary/binary, text/binary, binary/text and text/text forms of one question',
+                        case=[gen.vtext(a), gen.vtext(b)], observed=outs)
     for a, b, c, ids in ctx.chains:
         ab, bc, ac = [impl.get(i) for i in ids]
         if ab == 'ok =true' and bc == 'ok =true' and ac != 'ok =true':
